@@ -9,6 +9,7 @@ docstrings in (complex) long double.
 import numpy as np
 from hypothesis import strategies as st
 
+from vp.oracle.c07_guard import Guarded
 from vp.runner import Suite
 
 PROP_ID = "C08"
@@ -22,10 +23,12 @@ RULE = (
     "T-row grid whose every combination stays in the x range; spectra suite: "
     "positive grids of 1-12 points (ascending, descending, unsorted) with "
     "1-D to 3-D spectra for the four density converters, Planck spectra on a "
-    "grid, and the six unit converters; optics suite: batches of (n1 in "
+    "grid, and the six unit converters (float scalars/arrays and 1-5 "
+    "integers as int, NumPy ints and int32/int64 arrays); optics suite: batches of (n1 in "
     "[1, 5], n2 real in [0.2, 10] or complex with Im >= 0, theta1 in "
     "[0, 90]) aimed at normal incidence, grazing incidence, the critical "
-    "angle (both sides, to 1e-9 deg), total reflection, the Brewster angle "
+    "angle (both sides, to 1e-9 deg), total reflection, the Brewster angle, "
+    "equal indices (also at exactly 0 and 90 deg) "
     "and complex-typed n2 with zero imaginary part, as scalars and arrays.  "
     "Non-trivial = some x < 1e-3 or x > 50, or array input, or complex n2 "
     "(spectra: every case; optics: array input, complex n2, total "
@@ -202,7 +205,8 @@ def planck_checks(ctx, em, F, T, dfac):
 
 
 def check_planck(case, ctx):
-    from typhon.physics import em
+    from typhon.physics import em as em_module
+    em = Guarded(em_module, ctx)
     kind = case["kind"]
     ctx.label("planck-" + kind)
     f_all = np.asarray(case["f"], float)
@@ -312,7 +316,8 @@ def _rel_close(got, ref, rtol):
 
 
 def check_spectra(case, ctx):
-    from typhon.physics import em
+    from typhon.physics import em as em_module
+    em = Guarded(em_module, ctx)
     h, k, c = consts()
     grid = np.array(case["grid"], dtype=float)
     n = len(grid)
@@ -432,6 +437,42 @@ def check_spectra(case, ctx):
                       "v=%r" % (b.__name__, a.__name__, d.__name__,
                                 np.asarray(v).tolist()))
 
+    # integer-typed arguments (whole Hz / m / 1/m as int, NumPy ints, int
+    # arrays): the same values as for the float evaluation
+    ints = [int(k) for k in case.get("ints", [])]
+    if ints:
+        ctx.label("int-arguments")
+        forms = [ints[0], np.int64(ints[0]), np.array(ints[0]),
+                 np.array(ints, dtype="int64")]
+        if max(ints) < 2 ** 31:
+            forms += [np.array(ints, dtype="int32"), np.int32(ints[0])]
+        names = ["frequency2wavelength", "wavelength2frequency",
+                 "frequency2wavenumber", "wavenumber2frequency",
+                 "wavelength2wavenumber", "wavenumber2wavelength"]
+        for v in forms:
+            vf = np.asarray(v, dtype=float)
+            vf = vf if vf.shape else float(vf)
+            for name in names:
+                fn = getattr(em, name)
+                got, exp = fn(v), fn(vf)
+                ctx.check(np.shape(got) == np.shape(exp)
+                          and _rel_close(got, exp, 1e-15),
+                          "int-argument/" + name, lambda: (
+                              "%s(%r of type %s) = %r, but %r for the same "
+                              "values as float" % (
+                                  name, np.asarray(v).tolist(),
+                                  getattr(v, "dtype", type(v).__name__),
+                                  np.asarray(got).tolist(),
+                                  np.asarray(exp).tolist())))
+            for a, b in inv:
+                for p_, q_ in ((a, b), (b, a)):
+                    ctx.check(_rel_close(q_(p_(v)), vf, 1e-15),
+                              "inverse/" + p_.__name__, lambda: (
+                                  "%s(%s(%r as integers)) = %r" % (
+                                      q_.__name__, p_.__name__,
+                                      np.asarray(v).tolist(),
+                                      np.asarray(q_(p_(v))).tolist())))
+
 
 @st.composite
 def spectra_cases(draw):
@@ -465,8 +506,13 @@ def spectra_cases(draw):
     tlo = max(2.0, max(fs) / (KH * 599.9))
     thi = min(1e4, min(fs) / (KH * 1.0001e-6))
     ts = [draw(_logu(tlo, thi)) for _ in range(nt)]
+    ints = draw(st.lists(st.one_of(
+        st.integers(1, 2000), st.integers(1, 10 ** 6),
+        st.integers(10 ** 8, 10 ** 15),
+        st.sampled_from([500, 1000, 1500, 1, 2, 300000000])),
+        min_size=1, max_size=5))
     return {"grid": grid, "order": order, "extra": extra, "values": values,
-            "pf": fs, "pT": ts}
+            "pf": fs, "pT": ts, "ints": ints}
 
 
 # --------------------------------------------------------------------------
@@ -484,7 +530,8 @@ def liou(n1, n2re, n2im, th):
 
 
 def check_optics(case, ctx):
-    from typhon.physics import em
+    from typhon.physics import em as em_module
+    em = Guarded(em_module, ctx)
     kind = case["kind"]
     n2type = case["n2type"]
     ctx.label("optics-" + kind, "n2-" + n2type)
@@ -522,6 +569,19 @@ def check_optics(case, ctx):
             ctx.check(np.all(isnan[beyond]), "snell/no-nan-beyond-critical",
                       lambda: "%s: theta2 = %r" % (info(), th2.tolist()))
             ctx.check(not np.any(isnan[below]), "snell/nan-below-critical",
+                      lambda: "%s: theta2 = %r" % (info(), th2.tolist()))
+            # NaN only *beyond* total reflection: for equal indices the
+            # float64 quotient n1 sin(theta1) / n2 cannot exceed 1 (rounding
+            # is monotone), so theta2 = theta1 up to and including 90 deg
+            equal = np.asarray(n1 == n2re)
+            if np.any(equal):
+                ctx.label("equal-indices")
+                if np.any(equal & np.asarray(th == 90)):
+                    ctx.label("equal-indices-at-90")
+            ctx.check(not np.any(isnan[equal]), "snell/nan-for-equal-indices",
+                      lambda: "%s: theta2 = %r" % (info(), th2.tolist()))
+            ctx.check(np.all(np.abs(th2 - th.astype(float))[equal & ~isnan]
+                             <= 1e-6), "snell/equal-indices-angle",
                       lambda: "%s: theta2 = %r" % (info(), th2.tolist()))
             ok = ~isnan
             err = np.abs(n1 * s1 - n2re * sin2)[ok]
@@ -657,15 +717,16 @@ def optics_point(draw, n2type):
     n2 = draw(st.one_of(st.floats(0.2, 10.0), st.floats(0.2, 1.0),
                         st.sampled_from([1.0, 1.5, 0.2, 10.0, 1.33])))
     mode = draw(st.sampled_from(["free", "free", "normal", "grazing",
-                                 "critical", "beyond", "brewster", "equal"]))
-    if mode == "equal":
+                                 "critical", "beyond", "brewster", "equal",
+                                 "equal-grazing", "equal-normal"]))
+    if mode.startswith("equal"):
         n2 = n1
     if mode in ("critical", "beyond") and n2 >= n1:
         n2 = max(0.2, n1 * draw(st.floats(0.05, 0.999)))
     thc = float(np.degrees(np.arcsin(min(n2 / n1, 1.0))))
-    if mode == "normal":
+    if mode in ("normal", "equal-normal"):
         th = 0.0
-    elif mode == "grazing":
+    elif mode in ("grazing", "equal-grazing"):
         th = 90.0
     elif mode == "critical":
         th = min(max(thc + draw(st.one_of(
